@@ -253,7 +253,95 @@ func GenTree(r *rng.R, o Opts) *Spec {
 	return genContainer(r, o, root, 1)
 }
 
+// CollisionPairs: pairs of different strings that collide under hash functions and checksums in common use (FNV-1a 32,
+// CRC-32, Java's 31-polynomial, Adler-32 / Fletcher style sums, plain byte sums, same length and same bytes in
+// another order); a comparison, a de-duplication or an index that trusts such a digest confuses them.
+var CollisionPairs = [][2]string{
+	{"liquid", "costarring"}, {"declinate", "macallums"}, {"altarage", "zinke"}, {"altarages", "zinkes"}, // FNV-1a 32
+	{"plumless", "buckeroo"},                         // CRC-32
+	{"Aa", "BB"}, {"AaAa", "BBBB"}, {"AaBB", "BBAa"}, // 31-polynomial
+	{"aca", "bab"}, {"order-131", "order-212"}, {"bdb", "cbc"}, // Adler-32 (equal length, byte sum and weighted sum)
+	{"ab", "ba"}, {"abc", "cab"}, {"listen", "silent"}, // permutations (byte sum, xor)
+	{"a\x00", "a"}, {"a", "a "}, {"", "\x00"}, // padding
+}
+
+// ChecksumNeutral returns a different string of the same length with the same byte sum and the same position-weighted
+// sum (three equally spaced bytes changed by +1, -2, +1), or "" when s is too short / has no room.
+func ChecksumNeutral(r *rng.R, s string) string {
+	b := []byte(s)
+	if len(b) < 3 {
+		return ""
+	}
+	for try := 0; try < 20; try++ {
+		d := 1 + r.Intn((len(b)-1)/2)
+		i := r.Intn(len(b) - 2*d)
+		x, y, z := b[i], b[i+d], b[i+2*d]
+		if x < 0x7e && y > 0x21 && y < 0x7f && z < 0x7e && x >= 0x20 && z >= 0x20 {
+			b[i], b[i+d], b[i+2*d] = x+1, y-2, z+1
+			return string(b)
+		}
+	}
+	return ""
+}
+
+// genTable: a list of rows. Either lists of scalars with ragged lengths (often with a total that would also fit a
+// rectangle), or records with (almost) the same keys.
+func genTable(r *rng.R, o Opts) *Spec {
+	s := &Spec{K: List}
+	rows := r.Range(2, 5)
+	if r.Bool() {
+		first := r.Range(0, 4)
+		lens := make([]int, rows)
+		lens[0] = first
+		total := first
+		for i := 1; i < rows; i++ {
+			lens[i] = r.Range(0, 5)
+			total += lens[i]
+		}
+		if r.Bool() && rows > 1 {
+			// make the cell count that of a rectangle first x rows although the rows are ragged
+			want := first * rows
+			for guard := 0; total != want && guard < 200; guard++ {
+				j := 1 + r.Intn(rows-1)
+				if total < want {
+					lens[j]++
+					total++
+				} else if lens[j] > 0 {
+					lens[j]--
+					total--
+				}
+			}
+		}
+		for i := 0; i < rows; i++ {
+			row := &Spec{K: List}
+			for j := 0; j < lens[i]; j++ {
+				row.L = append(row.L, GenScalar(r))
+			}
+			s.L = append(s.L, row)
+		}
+		return s
+	}
+	cols := []string{"id", "name", "k", "x"}[:r.Range(1, 4)]
+	for i := 0; i < rows; i++ {
+		rec := &Spec{K: Obj}
+		for _, c := range cols {
+			if r.Chance(1, 6) {
+				continue // a missing column
+			}
+			rec.Set(c, GenScalar(r))
+		}
+		if r.Chance(1, 4) {
+			rec.Set([]string{"extra", "ID", "name "}[r.Intn(3)], GenScalar(r)) // same number of keys, another key
+		}
+		s.L = append(s.L, rec)
+	}
+	return s
+}
+
 func genContainer(r *rng.R, o Opts, k Kind, depth int) *Spec {
+	if k == List && depth > 1 && depth < o.MaxDepth && r.Chance(1, 14) {
+		return genTable(r, o)
+	}
 	var n int
 	switch r.Intn(8) {
 	case 0:
